@@ -223,6 +223,16 @@ def interp(e, env):
         return b ** x
     if isinstance(e, sympy.Abs):
         return abs(interp(e.args[0], env))
+    if isinstance(e, sympy.re):  # all values are real in the R^3 semantics
+        return interp(e.args[0], env)
+    if isinstance(e, sympy.im):
+        interp(e.args[0], env)
+        return mpmath.mpf(0)
+    if isinstance(e, sympy.sign):
+        x = _val(interp(e.args[0], env))
+        if x == 0:
+            raise ZeroDivisionError("sign at 0")
+        return mpmath.mpf(1 if x > 0 else -1)
     raise Uninterpretable("unsupported node " + type(e).__name__)
 
 
